@@ -13,6 +13,7 @@ package main
 import (
 	"bytes"
 	"crypto/elliptic"
+	crand "crypto/rand"
 	"crypto/sha256"
 	"encoding/binary"
 	"fmt"
@@ -23,6 +24,8 @@ import (
 	"path/filepath"
 	"runtime"
 	"strings"
+	"sync"
+	"testing/iotest"
 	"time"
 
 	"github.com/markkurossi/mpc/ot"
@@ -1581,6 +1584,9 @@ func c18FreshProcess(c *Ctx, run *c18Run) {
 		cmd := exec.Command(exe)
 		cmd.Env = append(os.Environ(), "C18_CHILD="+role, "C18_DIR="+dir, fmt.Sprintf("C18_CURVE=%d", cv.id),
 			fmt.Sprintf("C18_SEED=%d", seed))
+		if role == "garbler-round3" || role == "decode-es" {
+			cmd.Env = append(cmd.Env, "GOGC=1") // these two children also run under heavy GC pressure
+		}
 		done := make(chan struct{})
 		var out []byte
 		var runErr error
@@ -1624,6 +1630,334 @@ func c18FreshProcess(c *Ctx, run *c18Run) {
 		child("decode-"+f, 0, map[string][]byte{"reenc": files[f]})
 	}
 	os.RemoveAll(dir)
+}
+
+// ---------------------------------------------------------------- other doors
+//
+// Less-travelled ways into the package (notes/C18-findings.md, table "Doors"):
+// the exported default curve with crypto/rand (the Example/Benchmark call
+// pattern), readers that deliver one byte per Read, nil arguments, arguments
+// and results re-used or modified after the call, rounds called twice,
+// goroutine-concurrent sessions and encoders, encoder inputs the API
+// normalises (empty CurveName) or rejects (other name, wrong counts) and
+// extreme field values.
+
+func c18DigestOf(a, b [32]byte) [32]byte {
+	var x [32]byte
+	for i := range x {
+		x[i] = a[i] ^ b[i]
+	}
+	return sha256.Sum256(x[:])
+}
+
+func c18Doors(c *Ctx, base *c18Run) {
+	cv := base.cv
+	r := c.rng.Fork()
+	fail := func(key, what string) {
+		c.Fail("c18:door:"+key, what, c18Replay{Seed: c.Seed, Curve: cv.name, What: what, Plan: key})
+	}
+	door := func(name string) { c.Hist("door:" + name); c.Eval("door|"+name+fmt.Sprint(r.U64()), true) }
+
+	// -- Example / Benchmark pattern: sha2pc.CurveP256 and crypto/rand.Reader, twice in a row
+	for i := 0; i < 2; i++ {
+		var a, b [32]byte
+		copy(a[:], r.Bytes(32))
+		copy(b[:], r.Bytes(32))
+		m1, gs, err := sha2pc.GarblerRound1(crand.Reader, sha2pc.CurveP256)
+		var m2 sha2pc.Round2Payload
+		var es *sha2pc.EvaluatorSession
+		var m3 sha2pc.Round3Payload
+		var d [32]byte
+		if err == nil {
+			m2, es, err = sha2pc.EvaluatorRound2(crand.Reader, sha2pc.CurveP256, m1, b)
+		}
+		if err == nil {
+			m3, err = sha2pc.GarblerRound3(crand.Reader, sha2pc.CurveP256, gs, a, m2)
+		}
+		if err == nil {
+			d, err = sha2pc.EvaluatorRound4(sha2pc.CurveP256, es, m3)
+		}
+		door("CurveP256+crypto/rand")
+		if err != nil {
+			fail("CurveP256+crypto-rand:error", "the Example/Benchmark call pattern fails: "+err.Error())
+		} else if d != c18DigestOf(a, b) {
+			fail("CurveP256+crypto-rand:wrong-digest", "the Example/Benchmark call pattern gives a digest that is not SHA-256(a xor b)")
+		}
+	}
+	if sha2pc.CurveP256 != elliptic.P256() {
+		fail("CurveP256:not-P256", "sha2pc.CurveP256 is not elliptic.P256()")
+	}
+
+	// -- a random source that delivers one byte per Read (legal io.Reader)
+	{
+		var a, b [32]byte
+		copy(a[:], r.Bytes(32))
+		copy(b[:], r.Bytes(32))
+		s1, s2, s3 := r.U64(), r.U64(), r.U64()
+		var d [32]byte
+		cls, msg := c18Guard(func() error {
+			m1, gs, err := sha2pc.GarblerRound1(iotest.OneByteReader(NewRNG(s1)), cv.c)
+			if err != nil {
+				return err
+			}
+			m2, es, err := sha2pc.EvaluatorRound2(iotest.OneByteReader(NewRNG(s2)), cv.c, m1, b)
+			if err != nil {
+				return err
+			}
+			m3, err := sha2pc.GarblerRound3(iotest.OneByteReader(NewRNG(s3)), cv.c, gs, a, m2)
+			if err != nil {
+				return err
+			}
+			d, err = sha2pc.EvaluatorRound4(cv.c, es, m3)
+			return err
+		})
+		door("one-byte-reader")
+		if cls != clsOk {
+			fail("one-byte-reader:error", "with a reader delivering one byte per Read the protocol fails: "+msg)
+		} else if d != c18DigestOf(a, b) {
+			fail("one-byte-reader:wrong-digest", "with a reader delivering one byte per Read the digest is not SHA-256(a xor b)")
+		}
+	}
+
+	// -- nil arguments: an error, never a panic
+	{
+		var in [32]byte
+		calls := map[string]func() error{
+			"GarblerRound1(nil rng)":          func() error { _, _, e := sha2pc.GarblerRound1(nil, cv.c); return e },
+			"GarblerRound1(nil curve)":        func() error { _, _, e := sha2pc.GarblerRound1(NewRNG(1), nil); return e },
+			"EvaluatorRound2(nil rng)":        func() error { _, _, e := sha2pc.EvaluatorRound2(nil, cv.c, base.r1, in); return e },
+			"EvaluatorRound2(nil curve)":      func() error { _, _, e := sha2pc.EvaluatorRound2(NewRNG(1), nil, base.r1, in); return e },
+			"GarblerRound3(nil rng)":          func() error { _, e := sha2pc.GarblerRound3(nil, cv.c, base.gs, in, base.r2); return e },
+			"GarblerRound3(nil curve)":        func() error { _, e := sha2pc.GarblerRound3(NewRNG(1), nil, base.gs, in, base.r2); return e },
+			"GarblerRound3(nil session)":      func() error { _, e := sha2pc.GarblerRound3(NewRNG(1), cv.c, nil, in, base.r2); return e },
+			"GarblerRound3(zero session)":     func() error { _, e := sha2pc.GarblerRound3(NewRNG(1), cv.c, &sha2pc.GarblerSession{}, in, base.r2); return e },
+			"GarblerRound3(zero Round2)":      func() error { _, e := sha2pc.GarblerRound3(NewRNG(1), cv.c, base.gs, in, sha2pc.Round2Payload{}); return e },
+			"EvaluatorRound4(nil curve)":      func() error { _, e := sha2pc.EvaluatorRound4(nil, base.es, base.r3); return e },
+			"EvaluatorRound4(nil session)":    func() error { _, e := sha2pc.EvaluatorRound4(cv.c, nil, base.r3); return e },
+			"EvaluatorRound4(zero session)":   func() error { _, e := sha2pc.EvaluatorRound4(cv.c, &sha2pc.EvaluatorSession{}, base.r3); return e },
+			"EvaluatorRound4(zero Round3)":    func() error { _, e := sha2pc.EvaluatorRound4(cv.c, base.es, sha2pc.Round3Payload{SessionID: base.es.SessionID}); return e },
+			"EncodeRound1(nil curve)":         func() error { _, e := sha2pc.EncodeRound1(nil, base.r1); return e },
+			"EncodeRound2(nil curve)":         func() error { _, e := sha2pc.EncodeRound2(nil, base.r2); return e },
+			"EncodeGarblerSession(nil curve)": func() error { _, e := sha2pc.EncodeGarblerSession(nil, base.gs); return e },
+			"EncodeGarblerSession(nil)":       func() error { _, e := sha2pc.EncodeGarblerSession(cv.c, nil); return e },
+			"EncodeEvaluatorSession(nil curve)": func() error { _, e := sha2pc.EncodeEvaluatorSession(nil, base.es); return e },
+			"EncodeEvaluatorSession(nil)":     func() error { _, e := sha2pc.EncodeEvaluatorSession(cv.c, nil); return e },
+			"EncodeRound3(zero)":              func() error { _, e := sha2pc.EncodeRound3(sha2pc.Round3Payload{}); return e },
+			"DecodeRound1(nil curve)":         func() error { _, e := sha2pc.DecodeRound1(nil, base.enc[c18R1]); return e },
+			"DecodeRound2(nil curve)":         func() error { _, e := sha2pc.DecodeRound2(nil, base.enc[c18R2]); return e },
+			"DecodeGarblerSession(nil curve)": func() error { _, e := sha2pc.DecodeGarblerSession(nil, base.enc[c18GS]); return e },
+			"DecodeEvaluatorSession(nil curve)": func() error { _, e := sha2pc.DecodeEvaluatorSession(nil, base.enc[c18ES]); return e },
+			"DecodeRound1(nil data)":          func() error { _, e := sha2pc.DecodeRound1(cv.c, nil); return e },
+			"DecodeRound3(nil data)":          func() error { _, e := sha2pc.DecodeRound3(nil); return e },
+		}
+		for name, f := range calls {
+			cls, msg := c18Guard(f)
+			door("nil-argument")
+			switch cls {
+			case clsPanic:
+				fail("nil-argument:panic:"+name, name+" panics: "+msg)
+			case clsOk:
+				fail("nil-argument:accepted:"+name, name+" returns no error")
+			}
+		}
+	}
+
+	// -- rounds called twice; messages and sessions are not modified by the consumer
+	{
+		d1, e1 := sha2pc.EvaluatorRound4(cv.c, base.es, base.r3)
+		d2, e2 := sha2pc.EvaluatorRound4(cv.c, base.es, base.r3)
+		door("round4-twice")
+		if e1 != nil || e2 != nil || d1 != d2 || d1 != base.digest {
+			fail("EvaluatorRound4:called-twice:differs", fmt.Sprintf("EvaluatorRound4 called again on the same session and message: %v %v %x %x", e1, e2, d1, d2))
+		}
+		for _, kind := range []int{c18R1, c18R2, c18R3, c18GS, c18ES} {
+			if b, cls := (c18Val{kind, base}).encode(); cls != clsOk || !bytes.Equal(b, base.enc[kind]) {
+				fail("value-modified-by-consumer:"+c18EncName[kind], "after the rounds that consumed it (and EvaluatorRound4 twice) "+c18EncName[kind]+" of the same value gives other bytes than before")
+			}
+		}
+		r3b, err := sha2pc.GarblerRound3(NewRNG(base.s3), cv.c, base.gs, base.a, base.r2)
+		door("round3-again-same-randomness")
+		if err != nil {
+			fail("GarblerRound3:called-twice:error", err.Error())
+		} else if b, err := sha2pc.EncodeRound3(r3b); err != nil || !bytes.Equal(b, base.enc[c18R3]) {
+			fail("GarblerRound3:called-twice:differs", "GarblerRound3 with the same session, message and randomness gives another payload")
+		}
+	}
+
+	// -- the caller re-uses / overwrites what it passed in or got back
+	{
+		s := c18NewSess(r, 0, cv)
+		var err error
+		step := func(f func() error) {
+			if err == nil {
+				err = f()
+			}
+		}
+		step(func() error { return c18SessStep(s, false) }) // round 1
+		var e1 []byte
+		step(func() (e error) { e1, e = sha2pc.EncodeRound1(cv.c, s.r1); return })
+		// the garbler's caller scribbles over the message it has sent
+		step(func() error { s.r1.OT.A.X.SetInt64(7); s.r1.OT.A.Y.SetInt64(9); return nil })
+		var r1 sha2pc.Round1Payload
+		step(func() (e error) { r1, e = sha2pc.DecodeRound1(cv.c, e1); return })
+		step(func() (e error) { s.r2, s.es, e = sha2pc.EvaluatorRound2(NewRNG(s.s2), cv.c, r1, s.b); return })
+		// the evaluator's caller scribbles over the message it has consumed and the bytes it came from
+		step(func() error {
+			r1.OT.A.X.SetInt64(11)
+			r1.OT.A.Y.SetInt64(13)
+			for i := range e1 {
+				e1[i] = 0xee
+			}
+			return nil
+		})
+		var e2 []byte
+		step(func() (e error) { e2, e = sha2pc.EncodeRound2(cv.c, s.r2); return })
+		var r2 sha2pc.Round2Payload
+		step(func() (e error) { r2, e = sha2pc.DecodeRound2(cv.c, e2); return })
+		step(func() (e error) { s.r3, e = sha2pc.GarblerRound3(NewRNG(s.s3), cv.c, s.gs, s.a, r2); return })
+		// the garbler's caller scribbles over the consumed Round2 and its bytes
+		step(func() error {
+			for i := range r2.Choices {
+				r2.Choices[i].X.SetInt64(1)
+				r2.Choices[i].Y.SetInt64(2)
+			}
+			for i := range e2 {
+				e2[i] = 0xdd
+			}
+			return nil
+		})
+		var e3 []byte
+		step(func() (e error) { e3, e = sha2pc.EncodeRound3(s.r3); return })
+		var r3 sha2pc.Round3Payload
+		step(func() (e error) { r3, e = sha2pc.DecodeRound3(e3); return })
+		step(func() error {
+			for i := range e3 {
+				e3[i] = 0xcc
+			}
+			return nil
+		})
+		var d [32]byte
+		step(func() (e error) { d, e = sha2pc.EvaluatorRound4(cv.c, s.es, r3); return })
+		door("arguments-overwritten-after-call")
+		if err != nil {
+			fail("arguments-overwritten-after-call:error", "a session whose caller overwrites the messages and byte slices it has already handed over fails: "+err.Error())
+		} else if d != c18DigestOf(s.a, s.b) {
+			fail("arguments-overwritten-after-call:wrong-digest", "a session whose caller overwrites handed-over messages gives a wrong digest")
+		}
+	}
+
+	// -- goroutine-concurrent sessions, encoders and decoders
+	{
+		const k = 4
+		var wg, phase1 sync.WaitGroup
+		errs := make([]string, k)
+		seeds := make([][5]uint64, k)
+		for i := range seeds {
+			for j := range seeds[i] {
+				seeds[i][j] = r.U64()
+			}
+		}
+		phase1.Add(k)
+		for i := 0; i < k; i++ {
+			wg.Add(1)
+			go func(i int) {
+				defer wg.Done()
+				defer func() {
+					if p := recover(); p != nil {
+						errs[i] = fmt.Sprint("panic: ", p)
+					}
+				}()
+				rr := NewRNG(seeds[i][0])
+				var a, b [32]byte
+				copy(a[:], rr.Bytes(32))
+				copy(b[:], rr.Bytes(32))
+				run, err := c18Protocol(cv, a, b, seeds[i][1], seeds[i][2], seeds[i][3], c18Plan{G1: 1, G2: 1, E2: 1, E3: 1, Wire: true}, nil)
+				phase1.Done()
+				if err != nil {
+					errs[i] = err.Error()
+					return
+				}
+				if run.digest != c18DigestOf(a, b) {
+					errs[i] = "digest differs from SHA-256(a xor b)"
+					return
+				}
+				// all goroutines encode and decode at the same time (their own run's values and the
+				// shared base run's): the bytes must equal the ones produced alone
+				phase1.Wait()
+				for rep := 0; rep < 6; rep++ {
+					for _, src := range []*c18Run{run, base} {
+						for _, kind := range []int{c18R3, c18ES, c18R2, c18GS, c18R1} {
+							bts, cls := (c18Val{kind, src}).encode()
+							if cls != clsOk || !bytes.Equal(bts, src.enc[kind]) {
+								errs[i] = c18EncName[kind] + " run concurrently gives other bytes than run alone"
+								return
+							}
+							if kind == c18R2 && rep > 0 {
+								continue // 256 decompressions per decode: once is enough
+							}
+							if d := c18Decode(kind, cv, bts); d.class != clsOk || !bytes.Equal(d.reEnc, bts) {
+								errs[i] = c18KindName[kind] + " run concurrently does not reproduce the value"
+								return
+							}
+						}
+					}
+				}
+			}(i)
+		}
+		wg.Wait()
+		door("concurrent-goroutines")
+		for i, e := range errs {
+			if e != "" {
+				fail("concurrent-sessions:goroutine", fmt.Sprintf("goroutine %d of %d concurrent sessions: %s", i, k, e))
+			}
+		}
+	}
+
+	// -- encoder inputs the API normalises or rejects, and extreme field values (op history: correspondence)
+	{
+		mod := func(f func(x *c18Run)) *c18Run {
+			x := *base
+			gs, es := *base.gs, *base.es
+			x.gs, x.es = &gs, &es
+			x.es.ChoiceBundle.Scalars = append([]*big.Int(nil), base.es.ChoiceBundle.Scalars...)
+			x.es.ChoiceBundle.Bits = append([]bool(nil), base.es.ChoiceBundle.Bits...)
+			x.r2.Choices = append([]ot.ECPoint(nil), base.r2.Choices...)
+			f(&x)
+			return &x
+		}
+		max64 := ^uint64(0)
+		top := new(big.Int).Sub(new(big.Int).Lsh(big.NewInt(1), uint(8*cv.bl)), big.NewInt(1)) // 256^bl - 1
+		vals := []c18Op{
+			{enc: true, lenient: true, val: c18Val{c18R1, mod(func(x *c18Run) { x.r1.OT.CurveName = "" })}},
+			{enc: true, lenient: true, val: c18Val{c18R1, mod(func(x *c18Run) { x.r1.OT.CurveName = "P-999" })}},
+			{enc: true, lenient: true, val: c18Val{c18GS, mod(func(x *c18Run) { x.gs.SenderSetup.CurveName = "" })}},
+			{enc: true, lenient: true, val: c18Val{c18ES, mod(func(x *c18Run) { x.es.ChoiceBundle.CurveName = "p-256" })}},
+			{enc: true, lenient: true, val: c18Val{c18R2, mod(func(x *c18Run) { x.r2.CurveName = "" })}},
+			{enc: true, lenient: true, val: c18Val{c18R2, mod(func(x *c18Run) { x.r2.Choices = x.r2.Choices[:255] })}},
+			{enc: true, lenient: true, val: c18Val{c18ES, mod(func(x *c18Run) { x.es.ChoiceBundle.Scalars = x.es.ChoiceBundle.Scalars[:255] })}},
+			{enc: true, lenient: true, val: c18Val{c18ES, mod(func(x *c18Run) { x.es.ChoiceBundle.Bits = append(x.es.ChoiceBundle.Bits, true) })}},
+			// extreme values (decoders of sessions / Round1 do not validate points)
+			{enc: true, val: c18Val{c18R1, mod(func(x *c18Run) { x.r1.SessionID = 0; x.r1.OT.A = ot.ECPoint{X: big.NewInt(0), Y: big.NewInt(1)} })}},
+			{enc: true, val: c18Val{c18R1, mod(func(x *c18Run) { x.r1.SessionID = max64; x.r1.OT.A = ot.ECPoint{X: top, Y: new(big.Int).Rsh(top, 9)} })}},
+			{enc: true, val: c18Val{c18GS, mod(func(x *c18Run) {
+				x.gs.SessionID = max64
+				x.gs.SenderSetup.Scalar, x.gs.SenderSetup.Ax, x.gs.SenderSetup.AaInvY = big.NewInt(0), big.NewInt(255), top
+			})}},
+			{enc: true, val: c18Val{c18ES, mod(func(x *c18Run) {
+				x.es.SessionID = 0
+				x.es.ChoiceBundle.Scalars[0], x.es.ChoiceBundle.Scalars[1], x.es.ChoiceBundle.Scalars[255] = big.NewInt(0), big.NewInt(1), top
+				for i := range x.es.ChoiceBundle.Bits {
+					x.es.ChoiceBundle.Bits[i] = i%8 == 7 || i >= 248
+				}
+			})}},
+		}
+		ops := append([]c18Op(nil), vals...)
+		for i := range vals {
+			ops = append(ops, c18Op{slot: i})
+		}
+		c18History(c, cv, ops)
+		door("encoder-inputs+extreme-values")
+	}
 }
 
 // ---------------------------------------------------------------- op histories
@@ -1682,6 +2016,9 @@ type c18Op struct {
 	enc  bool
 	val  c18Val
 	slot int
+	// lenient: the value is not expected to come back unchanged (encoder input the
+	// API normalises or rejects): correspondence and aliasing oracle only
+	lenient bool
 }
 
 func sxKey(items []SX) string { return L(items...).String() }
@@ -1690,7 +2027,7 @@ func sxKey(items []SX) string { return L(items...).String() }
 func c18History(c *Ctx, cv c18Curve, ops []c18Op) {
 	var store, copies [][]byte
 	var vals []c18Val
-	var aliased []bool
+	var aliased, lenient []bool
 	var opsSX, encObs, decObs []SX
 	hist := ""
 	checkOwned := func(when string) {
@@ -1719,6 +2056,7 @@ func c18History(c *Ctx, cv c18Curve, ops []c18Op) {
 			copies = append(copies, cloneBytes(b))
 			vals = append(vals, op.val)
 			aliased = append(aliased, false)
+			lenient = append(lenient, op.lenient || cls != clsOk)
 			encObs = append(encObs, L(I(cls), I(len(b))))
 			checkOwned(fmt.Sprintf("after the encode of slot %d", len(store)-1))
 			continue
@@ -1736,7 +2074,7 @@ func c18History(c *Ctx, cv c18Curve, ops []c18Op) {
 		} else {
 			decObs = append(decObs, L(append([]SX{I(0)}, d.obs...)...))
 		}
-		if d.class != clsOk || sxKey(d.obs) != sxKey(v.fields()) {
+		if !lenient[op.slot] && (d.class != clsOk || sxKey(d.obs) != sxKey(v.fields())) {
 			what := fmt.Sprintf("decoding the bytes held for slot %d (%s) does not give the value that was encoded there; history %s",
 				op.slot, c18EncName[v.kind], hist)
 			c.Fail(fmt.Sprintf("c18:%s:held-result-decodes-to-another-value", c18EncName[v.kind]), what,
@@ -2168,6 +2506,7 @@ func runC18(c *Ctx) error {
 				c18TamperRound3(c, base)
 				c18Environments(c, base)
 				c18FreshProcess(c, base)
+				c18Doors(c, base)
 			}
 			// (b) the run's own encodings
 			for _, k := range []int{c18R1, c18R2, c18GS, c18ES} {
